@@ -34,6 +34,9 @@ type C13Case struct {
 	// Reslice > 0: additionally a source is converted that holds one []any together with a prefix and
 	// a suffix re-slice of it (three slice headers over one backing array, cut at Reslice mod (len+1))
 	Reslice int `json:"reslice,omitempty"`
+	// Latin1: keys and string values are re-encoded at check time so that U+0080..U+00FF become single
+	// bytes (Go strings that are not valid UTF-8 are ordinary content for the native conversions)
+	Latin1 bool `json:"latin1,omitempty"`
 }
 
 type TypedSrc struct {
@@ -46,7 +49,7 @@ type TypedSrc struct {
 
 func GenC13(t *rapid.T) *C13Case {
 	cfg := TreeCfg{MaxDepth: 4, MaxWidth: 4, MaxStr: 5, LongLists: true, KeyGen: func(t *rapid.T) string {
-		return []string{"a", "b", "c", "", "k.1", "é"}[drawIdx(t, 6, "key")]
+		return []string{"a", "b", "c", "", "k.1", "é", ".a", ".a.b", "#0", ".", "caf\u00e9"}[drawIdx(t, 11, "key")]
 	}, LeafExtra: func(t *rapid.T) (V, bool) {
 		// floats that no JSON text can hold are ordinary content for the native conversions
 		if oneIn(t, 25, "nonfinite") {
@@ -97,6 +100,7 @@ func GenC13(t *rapid.T) *C13Case {
 	if oneIn(t, 8, "reslice") {
 		c.Reslice = 1 + genRaw(t)
 	}
+	c.Latin1 = oneIn(t, 5, "latin1")
 	n := drawInt(t, 1, 6, "nmods")
 	for i := 0; i < n; i++ {
 		c.Mods = append(c.Mods, NativeMod{Party: drawInt(t, 0, 3, "party"), Node: genRaw(t), Op: []string{"set", "delete"}[drawInt(t, 0, 1, "op")], A: genRaw(t)})
@@ -920,6 +924,14 @@ func CheckC13(c *C13Case, st *Stats) error {
 	if c.Tree.K != KList && c.Tree.K != KObject {
 		return nil
 	}
+	if c.Latin1 {
+		if tr, ok := c.Tree.Latin1All(); ok {
+			cc := *c
+			cc.Tree = tr
+			c = &cc
+			st.Count("latin1_strings_and_keys")
+		}
+	}
 	if c.Share {
 		if err := checkOneLevelOfInnerLevels(st); err != nil {
 			return err
@@ -989,6 +1001,6 @@ func CheckC13(c *C13Case, st *Stats) error {
 
 func init() {
 	Register("C13",
-		"native trees of map[string]any / []any / scalars (depth <= 4, empties and nil maps/slices included, floats including NaN and the infinities) with typed flavours ([]string, []int, map[string]float64, ...) and sized numbers (int8, uint16, int32, int64, float32) where the content allows; the container is built with NewObjectFrom/NewListFrom; one case in six additionally converts a []Object / []List / map[string]Object / map[string]List source (directly or nested in a []any / map[string]any) whose entries are containers or nil interface values (non-nil entries stored by reference, nil entries become nil elements, exports plain and equal, no shared slots). Oracle: container content == tree; NativeDict/NativeSlice hold only map[string]any, []any and canonical scalars (reflective walk) and equal the tree bit-exactly (also for a container built with Add/Set); Dict()/Slice() have exactly the keys/indices with entries == Get (identity for containers). One case in eight converts a source in which a []any occurs together with a prefix and a suffix re-slice of it (one backing array) and one map occurs twice. Then 1-6 modifications of one of four parties (container at any nested node, including re-keying an object and emptying and refilling it; native export at any nested map/slice; Dict/Slice export; the source map/slice at any nested level): after each, every OTHER party's snapshot is unchanged. After every modification fresh exports must describe the container as it is then. One case in six additionally stores one container instance at two positions, and wraps nested containers in user-defined derived types: the native export must still be plain data equal to the content. Non-trivial = tree depth >= 2 and at least one applied modification, or the shared-instance variant. Distinct = distinct FNV-64a hash of the case JSON.",
+		"native trees of map[string]any / []any / scalars (depth <= 4, empties and nil maps/slices included, floats including NaN and the infinities, keys that start with or contain a sigil, in one case of five all strings and keys re-encoded to bytes that are not valid UTF-8) with typed flavours ([]string, []int, map[string]float64, ...) and sized numbers (int8, uint16, int32, int64, float32) where the content allows; the container is built with NewObjectFrom/NewListFrom; one case in six additionally converts a []Object / []List / map[string]Object / map[string]List source (directly or nested in a []any / map[string]any) whose entries are containers or nil interface values (non-nil entries stored by reference, nil entries become nil elements, exports plain and equal, no shared slots). Oracle: container content == tree; NativeDict/NativeSlice hold only map[string]any, []any and canonical scalars (reflective walk) and equal the tree bit-exactly (also for a container built with Add/Set); Dict()/Slice() have exactly the keys/indices with entries == Get (identity for containers). One case in eight converts a source in which a []any occurs together with a prefix and a suffix re-slice of it (one backing array) and one map occurs twice. Then 1-6 modifications of one of four parties (container at any nested node, including re-keying an object and emptying and refilling it; native export at any nested map/slice; Dict/Slice export; the source map/slice at any nested level): after each, every OTHER party's snapshot is unchanged. After every modification fresh exports must describe the container as it is then. One case in six additionally stores one container instance at two positions, and wraps nested containers in user-defined derived types: the native export must still be plain data equal to the content. Non-trivial = tree depth >= 2 and at least one applied modification, or the shared-instance variant. Distinct = distinct FNV-64a hash of the case JSON.",
 		GenC13, CheckC13)
 }
